@@ -25,11 +25,11 @@ def declare(reg):
     reg.external("dr.get_dependencies", params=dict(c=Comp), returns=Set(Comp), pure=True, ensures=["result == uf('deps_of', Set(Comp), c)"])
     reg.external("dr.get_delegate", params=dict(c=Comp), returns=Ref("Delegate"), pure=True, ensures=["result == uf('delegate_of', Ref('Delegate'), c)"])
     reg.external("dr.get_name", params=dict(c=Comp), returns=STR, pure=True)
-    reg.specfun("eff", dict(c=Comp, F=FT), Set(STR), None)
-    # unfolding of eff (one step): a datasource that is not explicitly non-filterable, with filtering enabled, has its own
-    # filter strings plus those of every dependent; anything else has none
-    reg.axiom("forall(c, Comp, forall(F, FiltersT, forall(k, Str, (k in eff(c, F)) == (%s and ((c in F and k in F[c]) or "
-              "exists(d, uf('dependents_of', Set(Comp), c), k in eff(d, F)))))))" % ACTIVE.format(c="c"))
+    # unfolding of eff (one step), instantiated for each registration table F that occurs: a datasource that is not explicitly
+    # non-filterable, with filtering enabled, has its own filter strings plus those of every dependent; anything else has none
+    reg.specfun("eff", dict(c=Comp, F=FT), Set(STR), None, inst_axioms=[(["F"],
+        "forall(c2, Comp, forall(k, Str, (k in eff(c2, F)) == (%s and ((c2 in F and k in F[c2]) or "
+        "exists(d, uf('dependents_of', Set(Comp), c2), k in eff(d, F))))))" % ACTIVE.format(c="c2"))])
     reg.sort(FiltersT=FT)
 
     INNER_POST = [
